@@ -17,14 +17,14 @@ CLAIMED = {
  "C07": ("XOR double-array lookup (retrieve_cost) against its definition for arbitrary arrays and every 31-bit key, 8-lane accumulation, RawConnector::cost and DualConnector::cost arithmetic on parts-built connectors with symbolic feature rows / class maps / matrix cells; raw and dual connectors built natively from one concrete bigram model checked against the defining sums for every id pair",
          "construction from bigram.right/left/cost text (from_readers, template split, interning) is not executed symbolically (hashbrown maps and text parsing do not fold): it runs natively at check time on one concrete 12-template model with ragged rows and BOS/EOS entries and the solver checks cost() of the resulting raw and dual connectors for every id pair against the defining sums computed by an independent reference; ScorerBuilder::build on concrete key sets is attempted in the thorough tier (BTreeMap iteration does not fold: non-core); AVX2 path not modelled by Kani"),
  "C08": ("system {a} + user {ab} vs system {a,ab} with shared symbolic parameters: same optimal cost, same candidate counts, the user word offered as a user-lexicon candidate with the same prefix minimum, system words still available; reset_user_lexicon_from_reader(None) removes every user candidate; on an id-mapped dictionary the real reset_user_lexicon_from_reader/parse_csv translate the first, the replacing and the reloaded-after-clear user lexicon with the retained mapping (concrete one-row CSVs, symbolic mapping)",
-         "the double-array builder behind Lexicon::from_entries does not fold under CBMC: in the CSV instances it is stubbed by a trie the current code built natively for the same surface; CSV rows are concrete (parse_csv folds on concrete rows only); id verification is covered under C10 (c10_verify_ids)"),
+         "the double-array builder behind Lexicon::from_entries does not fold under CBMC: in the CSV instances it is stubbed by a trie the current code built natively for the same surface; CSV rows are concrete (parse_csv folds on concrete rows only); id verification for arbitrary ids is covered under C10 (c10_verify_ids); through the CSV path it is checked for rows with the left / the right id exactly at the connector's bound"),
  "C09": ("any 21-byte header different from the current magic followed by a valid body is rejected (all header bytes symbolic; also with only the 4 version bytes or only the terminator byte symbolic, which stay decidable when header handling grows; also through a reader whose read() hands out one byte per call); the complete image loads; hand-written decoders on symbolic bytes: U31 and U31x8 reject exactly the out-of-range lanes and every truncated input, the Scorer decoder rejects inconsistent array lengths; every cut point inside the header and inside the trie byte array of a whole image (symbolic cut point per 16-byte window); thorough tier: every strict prefix of a Scorer image with symbolic contents",
          "images of 340-700 bytes with empty strings; cut points that fall inside a scalar or length field of the bincode body are NOT decided (the symbolic read outcome is merged into the decoded value and nothing downstream folds; two such windows stay registered as non-core to document the no-verdict) - there the claim rests on the decoders propagating read errors, checked at codec level (U31, U31x8, Scorer truncation); reader = element-wise CutReader instantiation of the generic Read parameter; stubs: unty::type_equal, alloc::fmt::format"),
  "C10": ("numeric/packing kernels: CharInfo::new bit packing for all inputs; matrix index arithmetic; Lexicon/UnkHandler::verify accept exactly in-range ids; composing two arbitrary valid mappings of a non-square connector stays in range and is 'first, then second' (mapping validation itself: see C06); accepted-dictionary-implies-safe-use through the C01 pipeline instances",
          "totality over arbitrary file bytes is not decided (parsers over >5 arbitrary bytes are out of reach); listed in DESIGN"),
  "C12": ("pairs of re-spaced sentences tokenized in one query by two workers of one tokenizer with symbolic costs: same tokens, ids, total costs; ignore_space rejected without SPACE category",
          "sentences of N<=4, dictionaries meeting the stated precondition, matrix connector"),
- "C13": ("per-id counts after the real pipeline equal an independent recount of connection-cost evaluations over the lattice; empty sentences contribute nothing; repeated sentences add the same; compute_probs lists ids 1.. once, frequency-ordered, accepted by ConnIdMapper::from_iter",
+ "C13": ("per-id counts after the real pipeline equal an independent recount of connection-cost evaluations over the lattice; empty sentences contribute nothing; repeated sentences add the same; a shorter sentence after a longer one adds only its own lattice; ignore_space with a trailing and with an inner gap; compute_probs lists ids 1.. once, frequency-ordered, accepted by ConnIdMapper::from_iter",
          "counts up to 7 per id, 3-4 ids per side, N<=2 sentences; f64 division executed symbolically by CBMC's float model"),
 }
 NA = {
